@@ -299,6 +299,7 @@ class Built:
         self.skipped: List[str] = []  # "kind:reason"
         self.base_gate = None
         self.ctrl_total = 0
+        self.ctrl_feats = set()  # what kinds of control values the stack really contains (labels)
         self.circ_noninv = False  # a CircuitOperation whose body has no inverse is somewhere in the stack
 
 
@@ -331,12 +332,21 @@ def _perm_same_dim(qs, p):
     return new
 
 
-def _control_values(w, dims):
-    """-> (cirq control values object, set of active tuples)."""
+def _is_progression(levels):
+    levels = sorted(levels)
+    return len(levels) < 3 or len({b_ - a for a, b_ in zip(levels, levels[1:])}) == 1
+
+
+def _control_values(w, dims, feats=None):
+    """-> (cirq control values object, set of active tuples).  ``feats`` (a set) receives labels of what was built."""
     import cirq
 
+    feats = set() if feats is None else feats
     n = len(dims)
     v = w.get("v") or []
+    raw = bool(w.get("raw"))
+    if any(d >= 4 for d in dims):
+        feats.add("dim4plus")
     if w.get("sop"):
         terms = []
         for t in v:
@@ -344,19 +354,36 @@ def _control_values(w, dims):
             terms.append(tuple(int(t[i % len(t)]) % dims[i] if t else 0 for i in range(n)))
         if not terms:
             terms = [tuple(1 % d for d in dims)]
+        feats.add("sop")
+        if len(set(terms)) >= 3:
+            feats.add("sop_3plus_terms")
+        if raw:  # the constructor documents a Collection: duplicates and any order are accepted
+            terms = terms[::-1] + terms[:1]
+            feats.add("raw_unsorted")
         return cirq.SumOfProducts(terms), set(terms)
     sums = []
+    given = []
     for i in range(n):
         vi = v[i % len(v)] if v else [1]
         vi = vi if isinstance(vi, (list, tuple)) else [vi]
-        s = sorted({int(x) % dims[i] for x in vi}) or [1 % dims[i]]
+        lv = [int(x) % dims[i] for x in vi] or [1 % dims[i]]
+        s = sorted(set(lv))
         sums.append(s)
+        given.append((lv[::-1] + lv[:1]) if raw else s)
+        if dims[i] >= 4 and not _is_progression(s):
+            feats.add("uneven_levels")
+        if len(s) == dims[i] and dims[i] > 2:
+            feats.add("full_levels")
+        if len(s) >= 3:
+            feats.add("levels_3plus")
     active = set(itertools.product(*sums))
+    if raw:
+        feats.add("raw_unsorted")
     if w.get("b") and all(d == 2 for d in dims):
         # python bools are ints; the library itself passes control_values=[False] (UniformSuperpositionGate)
         given = [bool(s[0]) if len(s) == 1 else [bool(x) for x in s] for s in sums]
         return cirq.ProductOfSums(given), active
-    return cirq.ProductOfSums(sums), active
+    return cirq.ProductOfSums(given), active
 
 
 def build(recipe) -> Built:
@@ -406,7 +433,7 @@ def build(recipe) -> Built:
             ref.qubits = [m.get(q, q) for q in ref.qubits]
             b.applied.append("perm")
         elif k == "ctrl":
-            dims = [int(d) if int(d) in (2, 3, 4) else 2 for d in (w.get("d") or [2])][:2]
+            dims = [int(d) if int(d) in (2, 3, 4, 5, 6) else 2 for d in (w.get("d") or [2])][:2]
             if ref.mix is None:
                 b.skipped.append("ctrl:no_mixture")
                 continue
@@ -419,7 +446,8 @@ def build(recipe) -> Built:
                 continue
             used += cp
             cq = [mkq(kind, p, d) for p, d in zip(cp, dims)]
-            cv, active = _control_values(w, dims)
+            feats = set()
+            cv, active = _control_values(w, dims, feats)
             via = w.get("via", "by")
             if via in ("gc", "CG") and op.gate is None:
                 via = "by"
@@ -435,6 +463,8 @@ def build(recipe) -> Built:
             ref = Ref.of_mixture(cq + ref.qubits, [(p, control_block(u, dims, active)) for p, u in ref.mix])
             b.applied.append("ctrl")
             b.ctrl_total += len(dims)
+            b.ctrl_feats |= feats
+            b.ctrl_feats.add("via_" + via)
         elif k == "inv":
             if not ref.is_unitary:
                 b.skipped.append("inv:not_unitary")
@@ -618,23 +648,48 @@ class WrapperContract(Exception):
 # --------------------------------------------------------------------------------------- strategies
 
 
+def _levels_from_mask(args):
+    """(dims, masks) -> per control the list of levels whose bit is set in the mask (arbitrary non-empty subset)."""
+    ds, masks = args
+    out = []
+    for d, m in zip(ds, masks):
+        lv = [i for i in range(d) if (int(m) >> i) & 1]
+        out.append(lv or [int(m) % d])
+    return out
+
+
 def _ctrl_wrapper():
-    dims = st.lists(st.sampled_from([2, 2, 2, 3]), min_size=1, max_size=2)
+    dims = st.lists(st.sampled_from([2, 2, 2, 3, 3, 4, 5]), min_size=1, max_size=2)
+    # control qudits with room for unevenly spaced level sets (mostly one control, so that the register stays small)
+    big = st.one_of(st.lists(st.sampled_from([4, 5, 5, 6]), min_size=1, max_size=1),
+                    st.lists(st.sampled_from([4, 5, 5, 6]), min_size=1, max_size=1),
+                    st.lists(st.sampled_from([4, 5, 2, 3]), min_size=2, max_size=2))
+    at = st.integers(0, 5)
+    raw = st.sampled_from([False, False, True])
 
     def mk(ds):
-        pos = st.lists(st.lists(st.integers(0, 3), min_size=1, max_size=2), min_size=len(ds), max_size=len(ds))
-        sop = st.lists(st.lists(st.integers(0, 3), min_size=len(ds), max_size=len(ds)), min_size=1, max_size=3)
+        pos = st.lists(st.lists(st.integers(0, 5), min_size=1, max_size=4), min_size=len(ds), max_size=len(ds))
+        sop = st.lists(st.lists(st.integers(0, 5), min_size=len(ds), max_size=len(ds)), min_size=1, max_size=4)
         return st.one_of(
             st.fixed_dictionaries({"k": st.just("ctrl"), "d": st.just(ds), "sop": st.just(False), "v": pos,
-                                   "via": st.sampled_from(["by", "by", "CO", "gc", "CG"]), "at": st.integers(0, 5),
-                                   "b": st.sampled_from([False, False, False, True])}),
+                                   "via": st.sampled_from(["by", "by", "CO", "gc", "CG"]), "at": at,
+                                   "b": st.sampled_from([False, False, False, True]), "raw": raw}),
             st.fixed_dictionaries({"k": st.just("ctrl"), "d": st.just(ds), "sop": st.just(True), "v": sop,
-                                   "via": st.sampled_from(["by", "CO", "gc", "CG"]), "at": st.integers(0, 5)}),
+                                   "via": st.sampled_from(["by", "CO", "gc", "CG"]), "at": at, "raw": raw}),
             st.fixed_dictionaries({"k": st.just("ctrl"), "d": st.just(ds), "sop": st.just(False),
-                                   "v": st.just([[1]] * len(ds)), "via": st.sampled_from(["by", "gc"]), "at": st.integers(0, 5)}),
+                                   "v": st.just([[1]] * len(ds)), "via": st.sampled_from(["by", "gc"]), "at": at}),
         )
 
-    return dims.flatmap(mk)
+    def mk_mask(ds):
+        # every non-empty subset of the levels of each control is equally likely: unevenly spaced, non-contiguous, full
+        masks = st.tuples(*[st.integers(1, 2 ** d - 1) for d in ds])
+        lv = st.tuples(st.just(ds), masks).map(_levels_from_mask)
+        return st.fixed_dictionaries({"k": st.just("ctrl"), "d": st.just(ds), "sop": st.just(False), "v": lv,
+                                      "via": st.sampled_from(["by", "CO", "gc", "CG"]), "at": at, "raw": raw})
+
+    # a drawn selector instead of one_of: Hypothesis flattens nested one_of, which would multiply the weight of "ctrl"
+    # among the wrapper kinds
+    return st.integers(0, 4).flatmap(lambda i: big.flatmap(mk_mask) if i >= 3 else dims.flatmap(mk))
 
 
 def wrapper(kinds):
